@@ -1,14 +1,32 @@
 import OpcuaModel.Base.Loop
 import OpcuaModel.Model.SendSeqDrv
+import OpcuaModel.Model.SendGate
 /-
   Driver for C11: trace validation of the sender / renewal LTS
   (protocol: see OpcuaModel/Model/SendSeqDrv.lean).
 -/
 open Opcua Opcua.SendSeq
 
+/-- `gt <label> …` runs a trace of the gate LTS: rLock<i> rUnlock<i> close pass<t> -/
+def parseGate (w : String) : Option SendGate.Label :=
+  if w == "close" then some .close
+  else if w.startsWith "rLock" then (w.drop 5).toNat? >>= fun i => some (.rLock i)
+  else if w.startsWith "rUnlock" then (w.drop 7).toNat? >>= fun i => some (.rUnlock i)
+  else if w.startsWith "pass" then (w.drop 4).toNat? >>= fun i => some (.pass i)
+  else none
+
 def handle (st : Option St) (toks : List String) : Option St × String :=
-  match handleSeq st toks with
-  | some r => r
-  | none => (st, "bad-op")
+  match toks with
+  | "gt" :: ws =>
+    match ws.mapM parseGate with
+    | none => (st, "bad-op")
+    | some ls =>
+      match SendGate.run? SendGate.init ls with
+      | none => (st, "reject")
+      | some g => (st, s!"locked={g.locked} holders={g.holders.length} badPass={g.badPass}")
+  | _ =>
+    match handleSeq st toks with
+    | some r => r
+    | none => (st, "bad-op")
 
 def main : IO Unit := runDriverS handle (some (init 0 1))
